@@ -187,6 +187,7 @@ def run():
     ck.cov['evaluations'] = len(hs) + r['generated']
     ck.cov['distinct_nontrivial'] = len(set((h['key'], h['input'], h['v2'], h['vmflags'], h['cachejit'], h['argon']) for h in hs)) + r['distinct']
     ck.cov['rule'] = 'each of the 12 supported VM flag sets x {v1,v2} on each of the 6 cache configurations, full-memory VMs over a dataset produced page by page by that cache\'s own initialiser (public randomx_init_dataset); rotating adversarial key/input pairs; distinct = distinct (key,input,version,vm flags,cache cfg)'
+    ck.cov['rule'] += '; plus: lazily produced dataset pages come from 1-4 uneven public init calls, 48 further seeded inputs per cache through interpreter and JIT, live VMs re-bound across K1->K2->K1 (empty key, table-growing key pair), version switched on live VMs, VMs given both pointers, light-mode engines on programs with directed dataset offsets, synthetic item programs'
     ck.sample(lines[0])
     ck.sample(lines[1])
     ck.assumptions += ['LARGE_PAGES variants cannot be created here (no huge pages)', 'reference = interpreter, light mode, software AES, reference Argon2, computed in a separate process']
